@@ -62,7 +62,26 @@ CYCLE_SCRIPTS = {
            '(assert (str.contains s "b"))(check-sat)',
     'sort': '(declare-const x Int)(assert (= (+ x (* 2 x)) (+ (* 2 x) x)))'
             '(assert (and (> x 0) true))(check-sat)',
+    # a defined constant that is an alias of a variable; parameters named
+    # like symbols of the arguments
+    'alias': '(declare-const a Int)(declare-const x Int)'
+             '(define-fun f () Int a)(define-fun g ((x Int) (y Int)) Int '
+             '(+ x y))(assert (> a 0))(assert (< f (g (* x 2) x)))(check-sat)',
 }
+
+
+class TooSlow(BaseException):
+    pass
+
+
+def _alarm(seconds):
+    import signal
+
+    def on_alarm(*a):
+        raise TooSlow()
+
+    signal.signal(signal.SIGALRM, on_alarm)
+    signal.alarm(seconds)
 
 
 def _logging():
@@ -86,6 +105,7 @@ def _proposals(exprs, muts):
     for node in list(nodes.dfs(exprs)):
         for cls, m in muts:
             try:
+                _alarm(10)
                 if hasattr(m, 'filter') and not m.filter(node):
                     continue
                 props = []
@@ -93,14 +113,26 @@ def _proposals(exprs, muts):
                     props.extend(m.mutations(node))
                 if hasattr(m, 'global_mutations'):
                     props.extend(m.global_mutations(node, exprs))
+            except TooSlow:
+                out.append((f'{cls} on {node.__str__()[:60]}', 'HANG', None))
+                continue
             except Exception:
                 continue
+            finally:
+                _alarm(0)
             for p in props:
                 try:
+                    _alarm(10)
                     res = apply_simp(exprs, Simplification(
                         dict(p.substs), list(p.fresh_vars)))
+                except TooSlow:
+                    out.append((f'{cls} on {node.__str__()[:60]}', 'HANG',
+                                None))
+                    continue
                 except Exception:
                     continue
+                finally:
+                    _alarm(0)
                 if res is None:
                     continue
                 if not isinstance(res, list):
@@ -123,6 +155,12 @@ def run_pairs(name, lo, hi):
     n = 0
     bad = None
     for k, (d1, t1, r1) in enumerate(first):
+        if t1 == 'HANG':
+            if bad is None:
+                bad = ({'script': name, 'first': k, 'second': -2},
+                       f'"{d1}" does not deliver its proposals within 10 s '
+                       f'on {t_orig!r}')
+            continue
         if t1 == t_orig and bad is None:
             bad = ({'script': name, 'first': k, 'second': -1},
                    f'no-op: "{d1}" proposes the input itself: {t_orig!r}')
@@ -131,6 +169,10 @@ def run_pairs(name, lo, hi):
         r1 = nodes.reduplicate(r1)
         for j, (d2, t2, r2) in enumerate(_proposals(r1, muts)):
             n += 1
+            if t2 == 'HANG' and bad is None:
+                bad = ({'script': name, 'first': k, 'second': j},
+                       f'"{d2}" does not deliver its proposals within 10 s '
+                       f'on {t1!r}')
             if t2 == t_orig and bad is None:
                 bad = ({'script': name, 'first': k, 'second': j},
                        f'2-cycle: {t_orig!r} --[{d1}]--> {t1!r} --[{d2}]--> '
@@ -180,6 +222,7 @@ def run_fuel():
                     count[0] = 0
                     limit[0] = 64 * (size + 1) ** 2
                     t1 = time.time()
+                    _alarm(10)
                     try:
                         if hasattr(m, 'filter') and not m.filter(node):
                             continue
@@ -200,8 +243,16 @@ def run_fuel():
                                    f'{cls} on {node.__str__()[:80]} in '
                                    f'{name} exceeds {limit[0]} node '
                                    f'constructions (input size {size})')
+                    except TooSlow:
+                        if bad is None:
+                            bad = ({'script': name, 'mutator': cls,
+                                    'node': node.__str__()[:80]},
+                                   f'{cls} on {node.__str__()[:80]} in '
+                                   f'{name} did not finish within 10 s')
                     except Exception:
                         pass
+                    finally:
+                        _alarm(0)
                     calls += 1
                     if count[0] > worst[0]:
                         worst = (count[0], f'{cls} on {name}')
